@@ -3,6 +3,7 @@ package main
 import (
 	"crypto/tls"
 	"fmt"
+	"io"
 	"net"
 	"strings"
 	"sync"
@@ -18,7 +19,7 @@ func init() {
 	register(&Check{
 		ID: "C08", Level: "exploration", Primary: "cells", EvalCount: "connections_checked",
 		Rule: "matrix: connection endings {client FIN, client RST, Unbind, malformed frame, unsupported operation, mid-frame disconnect, read-timeout expiry, recovered panic in an inline (unbind-route) handler, " +
-			"recovered panic in a request-goroutine handler followed by FIN, server Stop} x in-flight states {no handler, k handlers parked on a harness gate (with distinct message IDs, and all with the same one), handlers writing large responses, slow requests sent in the same write as the ending (dispatched just before the connection ends), the inline StartTLS handler blocked in a handshake the client never completes (plain transport; endings FIN, RST, read timeout, Stop)} x transports {plain, TLS listener, " +
+			"recovered panic in a request-goroutine handler followed by FIN, server Stop} x in-flight states {no handler, k handlers parked on a harness gate (with distinct message IDs, all with the same one, and parked only after they have sent their final response), handlers writing large responses, slow requests sent in the same write as the ending (dispatched just before the connection ends), the inline StartTLS handler blocked in a handshake the client never completes (plain transport; endings FIN, RST, read timeout, Stop)} x transports {plain, TLS listener, " +
 			"StartTLS-upgraded}; every connection first makes one verified round trip (this maps the client socket to its ConnectionID). For endings where the client stays connected the gate is opened only after the " +
 			"client has watched its socket for a grace period: an EOF seen before the release is a certain violation. Offline oracle over the event log per connection ID: exactly one OnClose, stamped after " +
 			"the exit of every handler of that connection; at quiescence no goroutine with a gldap frame and no socket descriptor remain. distinct_nontrivial = distinct (ending, in-flight, transport) cells exercised",
@@ -26,7 +27,7 @@ func init() {
 		Phases: func(tier string, seed int64) []Phase {
 			return []Phase{{Name: "matrix", Run: c08Run}}
 		},
-		MinObserved: []string{"connections_checked", "onclose_events", "handler_exits_recorded", "eof_withheld_until_release_observed", "just_dispatched_endings_checked", "endings_with_a_starttls_handshake_pending", "connections_closed_while_another_connection_waits_for_its_handler", "connections_with_failed_writes_next_to_a_parked_handler"},
+		MinObserved: []string{"connections_checked", "onclose_events", "handler_exits_recorded", "eof_withheld_until_release_observed", "just_dispatched_endings_checked", "endings_with_a_starttls_handshake_pending", "connections_closed_while_another_connection_waits_for_its_handler", "connections_with_failed_writes_next_to_a_parked_handler", "tls_connections_ended_before_the_handshake"},
 	})
 }
 
@@ -76,6 +77,12 @@ func (wd *c08World) register(m *gldap.Mux) {
 		t.mu.Unlock()
 		t.entered.Add(1)
 		switch parts[1] {
+		case "parkdone":
+			// the request is answered in full, and THEN its handler stays around (it is still a handler of this connection)
+			w.Write(r.NewSearchDoneResponse(gldap.WithResponseCode(0)))
+			<-t.gate
+			ev.Exit = nextSeq()
+			return
 		case "park":
 			<-t.gate
 		case "slow":
@@ -111,7 +118,7 @@ func (wd *c08World) register(m *gldap.Mux) {
 }
 
 var c08Endings = []string{"fin", "rst", "unbind", "malformed", "unsupported", "midframe", "readtimeout", "panic-inline", "panic-goroutine+fin", "stop"}
-var c08Inflight = []string{"none", "parked", "parked-same-id", "writing", "just-dispatched"}
+var c08Inflight = []string{"none", "parked", "parked-same-id", "parked-after-answering", "writing", "just-dispatched"}
 var c08Transports = []string{"plain", "tls", "starttls"}
 
 type c08Cell struct{ Ending, Inflight, Transport string }
@@ -209,6 +216,11 @@ func c08OneCell(c *Ctx, wd *c08World, srv *Srv, cell c08Cell, stopper func()) {
 		for i := 0; i < k; i++ {
 			cl.Send(c08Search(10, tag+";park"))
 		}
+	case "parked-after-answering":
+		k = 2
+		for i := 0; i < k; i++ {
+			cl.Send(c08Search(int64(10+i), tag+";parkdone"))
+		}
 	case "writing":
 		k = 2
 		for i := 0; i < k; i++ {
@@ -298,7 +310,7 @@ func c08OneCell(c *Ctx, wd *c08World, srv *Srv, cell c08Cell, stopper func()) {
 	// 4. watch the socket; the gate opens only after the grace period
 	var releaseSeq int64
 	eofBeforeRelease := false
-	if clientStays && (cell.Inflight == "parked" || cell.Inflight == "parked-same-id") {
+	if clientStays && (cell.Inflight == "parked" || cell.Inflight == "parked-same-id" || cell.Inflight == "parked-after-answering") {
 		watch := 150 * time.Millisecond
 		if cell.Ending == "stop" {
 			// a server-initiated ending: hold the handlers well beyond any plausible internal grace period
@@ -585,6 +597,69 @@ func c08WriteFault(c *Ctx, wd *c08World, round int) {
 	c.Count("connections_with_failed_writes_next_to_a_parked_handler", 1)
 }
 
+// c08BeforeTheHandshake: connections to a TLS listener that end before (or instead of) a TLS handshake - plaintext
+// LDAP, connect-and-close, half a ClientHello, garbage. They were accepted, so each of them is closed and reported via
+// OnClose exactly once, with an ID of its own.
+func c08BeforeTheHandshake(c *Ctx, wd *c08World, round int) {
+	srv, err := startSrv(SrvCfg{TLS: wd.pki.ServerOnly}, wd.register)
+	if err != nil {
+		c.Inconclusive("server start: " + err.Error())
+		return
+	}
+	defer srv.StopWithin(patience)
+	opened := 0
+	for k := 0; k < 8; k++ {
+		cn, err := net.Dial("tcp", srv.Addr)
+		if err != nil {
+			continue
+		}
+		opened++
+		switch (k + round) % 4 {
+		case 0:
+			cn.Write(sber.Message(1, sber.BindRequest(3, []byte("cn=plain"), []byte("p")), nil).Encode())
+			cn.SetReadDeadline(time.Now().Add(300 * time.Millisecond))
+			io.Copy(io.Discard, cn)
+		case 1: // connect and close (a health check)
+		case 2:
+			cn.Write([]byte{0x16, 0x03, 0x01, 0x02, 0x00, 0x01, 0x00})
+			time.Sleep(2 * time.Millisecond)
+		default:
+			cn.Write([]byte("\x00\x01garbage\r\n"))
+			cn.SetReadDeadline(time.Now().Add(300 * time.Millisecond))
+			io.Copy(io.Discard, cn)
+		}
+		cn.Close()
+	}
+	if tc, err := tls.Dial("tcp", srv.Addr, wd.pki.ClientPlain); err == nil {
+		opened++
+		cl := wrapClient(tc)
+		cl.Send(c08Search(2, fmt.Sprintf("t%d;quick", c08TagCtr.Add(1))))
+		cl.ReadMsg(patience)
+		tc.Close()
+	}
+	var evs []closeEv
+	for dl := time.Now().Add(10 * time.Second); time.Now().Before(dl); time.Sleep(time.Millisecond) {
+		if evs = srv.Closes(); len(evs) >= opened {
+			break
+		}
+	}
+	time.Sleep(5 * time.Millisecond)
+	evs = srv.Closes()
+	ids := map[int]int{}
+	for _, ev := range evs {
+		ids[ev.ID]++
+	}
+	if len(evs) < opened {
+		c.Violate("OnClose not called for an ended connection", fmt.Sprintf("TLS listener: %d connections were opened and have ended (most of them before a handshake), %d OnClose callbacks arrived within 10s (ids %v)", opened, len(evs), ids), map[string]any{"round": round})
+	}
+	for id, n := range ids {
+		if n > 1 {
+			c.Violate("OnClose called more than once for one connection", fmt.Sprintf("TLS listener, connections ending before the handshake: id %d reported %d times", id, n), nil)
+		}
+	}
+	c.Count("tls_connections_ended_before_the_handshake", int64(opened-1))
+}
+
 func c08Run(c *Ctx) { c08RunWith(c, 0, 0) }
 
 // c08RunWith runs the matrix; writeEntries > 0 shrinks the "writing" handlers' output
@@ -675,6 +750,9 @@ func c08RunWith(c *Ctx, writeEntries, sweeps int) {
 	}
 	for round := 0; round < c.N(3, 30); round++ {
 		c08WriteFault(c, wd, round)
+	}
+	for round := 0; round < c.N(4, 40); round++ {
+		c08BeforeTheHandshake(c, wd, round)
 	}
 	// every connection has ended but the long-lived servers are still running: apart from their accept loops no
 	// goroutine with a gldap frame may remain (a per-connection helper that outlives its connection is a leak even
